@@ -331,6 +331,50 @@ def instantiations(res, tier):
     res.add(instantiation_assertions=n, instantiation_families=len(INST_FAMILIES))
 
 
+HARMLESS_ATTRS = ["deprecated", "unused", "may_alias", "warn_unused", "visibility(\"default\")", "nodebug",
+                  "annotate(\"x\")", "designated_init"]
+
+
+def attributes(res, tier):
+    """attributes that do not change the layout do not change the assertions: every record of a header is
+    declared once plain and once with an attribute on the record or on a member; the two assertion sets must
+    be the same (modulo the name), in both forms"""
+    w = C.workdir("c06-attrs")
+    plain, attributed = [], []
+    for k, a in enumerate(HARMLESS_ATTRS):
+        at = "__attribute__((%s))" % a
+        body = "{ char c; int i; long l; short s[3]; }"
+        plain.append("struct R%d %s;\nunion V%d { int i; double d; char c[3]; };\nstruct F%d { int a; char b; long z; };" % (k, body, k, k))
+        on_field = a in ("deprecated", "unused", "annotate(\"x\")", "nodebug")
+        attributed.append("struct %s R%d %s;\nunion %s V%d { int i; double d; char c[3]; };\nstruct F%d { int a %s; char b; long z %s; };"
+                          % (at if a != "nodebug" else "", k, body, at if a not in ("nodebug", "designated_init") else "", k, k,
+                             at if on_field else "", at if on_field and a != "nodebug" else ""))
+    n = 0
+    for form, fargs in (("const", []), ("test", ["--rust-target", "1.70"])):
+        sets = {}
+        for tag, lines in (("plain", plain), ("attr", attributed)):
+            hp = os.path.join(w, "%s.h" % tag)
+            with open(hp, "w") as f:
+                f.write("\n".join(lines) + "\n")
+            if subprocess.run(["clang", "-fsyntax-only", "-w", hp]).returncode != 0:
+                raise C.ToolError("attribute header not accepted by clang: " + hp)
+            p, log, outp = run_bindgen_logged(w, "%s-%s" % (tag, form), [hp, "--formatter=none"] + fargs)
+            if p.returncode != 0:
+                raise C.ToolError("attribute family failed: " + p.stderr[-600:])
+            with open(outp) as f:
+                items, _ = parse_asserts(f.read())
+            sets[tag] = sorted(map(tuple, items))
+            n += len(items)
+        if not sets["plain"]:
+            raise C.ToolError("no assertions in the plain attribute family")
+        if sets["plain"] != sets["attr"]:
+            missing = [x for x in sets["plain"] if x not in sets["attr"]]
+            extra = [x for x in sets["attr"] if x not in sets["plain"]]
+            res.violation("assertions-differ-for-attributed-records:%s" % form,
+                          {"missing": missing[:12], "unexpected": extra[:12], "attributes": HARMLESS_ATTRS})
+    res.add(attribute_family_assertions=n)
+
+
 def run(res, tier):
     res.assumptions += [
         "clang --target=<t> (constant table in LLVM IR) is the C compiler of each target; no sysroot is needed for the generated records",
@@ -343,4 +387,5 @@ def run(res, tier):
     targets(res, tier, decls)
     forms_and_off(res, tier, decls)
     instantiations(res, tier)
+    attributes(res, tier)
     res.cov["exhaustive"] = False
